@@ -125,9 +125,22 @@ def _seq_of(ex, st, v):
     raise Unsupported(f"expected a sequence, got {v}")
 
 
+def named_array(ex, st, seq: VSeq):
+    """a sequence whose array term is a lambda/store expression gets a named copy (so that it can occur
+    in quantifier triggers); equal pointwise on the index range"""
+    a = seq.comps[0]
+    if z3.is_const(a) and a.decl().kind() == z3.Z3_OP_UNINTERPRETED:
+        return seq
+    nm = z3.Const(fresh_name("arr"), A)
+    j = z3.Int(fresh_name("nj"))
+    st.pc.append(z3.ForAll([j], z3.Implies(z3.And(0 <= j, j < seq.ln), nm[j] == a[j]), patterns=[nm[j]]))
+    return VSeq([nm], seq.ln, seq.et, seq.kind)
+
+
 def seq_min(ex, st, seq: VSeq, line, what="min"):
     if not isinstance(seq.et, TInt):
         raise Unsupported("min/max of non-int sequence")
+    seq = named_array(ex, st, seq)
     ex.lib_used.add("min()/max()/sorted() of a list: result is an element, bounds all elements")
     ex.oblige(st, f"L{line}.{what}_of_nonempty", seq.ln > 0)
     r = z3.Int(fresh_name(what))
@@ -377,6 +390,7 @@ def _contract_keys():
 def sorted_model(ex, st, seq: VSeq, line):
     ex.lib_used.add("sorted(list): same length, ascending, first = min, last = max, every element drawn from the "
                     "input, same sum")
+    seq = named_array(ex, st, seq)
     a = seq.comps[0]
     s = z3.Const(fresh_name("sorted"), A)
     i, j = z3.Int(fresh_name("i")), z3.Int(fresh_name("j"))
